@@ -46,6 +46,7 @@ func main() {
 	}
 	h.Cfg.OneShotAsserts = os.Getenv("ONESHOT") != ""
 	h.Cfg.OneShotAll = os.Getenv("ONESHOT") == "all"
+	h.Cfg.PortfolioFallback = os.Getenv("FALLBACK") != ""
 	if t := os.Getenv("TIMEOUT"); t != "" {
 		v, _ := strconv.Atoi(t)
 		h.TimeoutMs = v * 1000
